@@ -55,7 +55,19 @@ def ob_class(ctx):
 
         both = Or([And(_letters_at(r, n, p_, g.site), _letters_at(r, n, p_, g.rsite)) for p_ in range(n)])
         ctx.assume(both if P.get("only_known_shape") else Not(both))
-    rec = st.record.CircularRecord(st.Seq(r), id="rec")
+    if P.get("history"):
+        # the record object was typed before, while it held other letters; that first entity is still alive when the
+        # record, edited in place, is typed again with a fresh entity
+        r0 = concrete_instance(pattern, n)
+        rec = st.record.CircularRecord(st.Seq(r0), id="rec")
+        earlier = K(rec)
+        if earlier.is_valid():
+            earlier.overhang_start(), earlier.overhang_end()
+            ctx.witness("earlier-accepted")
+        ctx.earlier = earlier
+        rec.seq = st.Seq(r)
+    else:
+        rec = st.record.CircularRecord(st.Seq(r), id="rec")
     ent = K(rec)
     valid = ent.is_valid()
     ctx.observe("valid", valid)
@@ -227,6 +239,11 @@ def obligations(tier, seed):
         obs.append(Ob("generic module over %s n=%d (F=%d, room for a third site in the target)" % (e, n, F), ob_class,
                       dict(src="generic", role="module", enzyme=e, n=n), samples=3, cost=n ** 3 * 4,
                       expect_witness=("accepted", "rejected"), group="third-site " + e))
+    for e, role in tier_pick(tier, [("BsaI", "module")], [("BsaI", "module"), ("BsaI", "vector"), ("SapI", "module")]):
+        F = fixed_letters(generic_class(st, role, e).structure())
+        obs.append(Ob("generic %s over %s n=%d, record typed before and edited in place" % (role, e, F + 1), ob_class,
+                      dict(src="generic", role=role, enzyme=e, n=F + 1, history=True), samples=3, cost=F ** 3 * 2,
+                      expect_witness=("accepted", "rejected", "earlier-accepted"), group="history"))
     slack = tier_pick(tier, [1], [0, 1, 2, 3, 4])
     for params, pat, F in class_params(tier, seed):
         if tier == "quick" and params.get("enzyme") in AMBIGUOUS_ENZYMES:
